@@ -77,7 +77,8 @@ def register(obj, p, ns, ev, rec, coro, base_ns_class):
 
 def run_server(p, kind, is_async, coro, rng, loop):
     ns = '/n%d' % rng.randrange(1000)
-    ev = {'ordinary': 'ev%d' % rng.randrange(1000)}.get(kind, kind)
+    ev = {'ordinary': 'ev%d' % rng.randrange(1000), 'star': '*'}.get(kind,
+                                                                      kind)
     a1, a2 = 'x%d' % rng.randrange(100), rng.randrange(100)
     environ = {'k': 'environ'}
     known = [(environ, 'environ'), (a1, 'a1'), (a2, 'a2')]
@@ -116,7 +117,7 @@ def run_server(p, kind, is_async, coro, rng, loop):
         normal = ['sid', 'environ']
     else:
         rec.calls = []
-        if kind == 'ordinary':
+        if kind in ('ordinary', 'star'):
             feed(refcodec.ref_encode(2, ns, None, [ev, a1, a2])[0])
             normal = ['sid', 'a1', 'a2']
         else:
@@ -129,7 +130,8 @@ def run_server(p, kind, is_async, coro, rng, loop):
 
 def run_client(p, kind, is_async, coro, rng, loop):
     ns = '/n%d' % rng.randrange(1000)
-    ev = {'ordinary': 'ev%d' % rng.randrange(1000)}.get(kind, kind)
+    ev = {'ordinary': 'ev%d' % rng.randrange(1000), 'star': '*'}.get(kind,
+                                                                      kind)
     a1, a2 = 'x%d' % rng.randrange(100), rng.randrange(100)
     known = [(a1, 'a1'), (a2, 'a2'), ('server disconnect', 'reason'),
              ('refused', 'data')]
@@ -153,7 +155,7 @@ def run_client(p, kind, is_async, coro, rng, loop):
     if kind == 'connect':
         return list(rec.calls), [], rec
     rec.calls = []
-    if kind == 'ordinary':
+    if kind in ('ordinary', 'star'):
         run(c.eio.deliver(refcodec.ref_encode(2, ns, None, [ev, a1, a2])[0]))
         return list(rec.calls), ['a1', 'a2'], rec
     run(c.eio.deliver(refcodec.ref_encode(1, ns)[0]))
@@ -166,17 +168,21 @@ def build_cases(seed, tier):
     asyncio.set_event_loop(loop)
     cases = []
     sides = [('Server', run_server, False, [False],
-              ['ordinary', 'connect', 'disconnect']),
+              ['ordinary', 'star', 'connect', 'disconnect']),
              ('AsyncServer', run_server, True, [False, True],
-              ['ordinary', 'connect', 'disconnect']),
+              ['ordinary', 'star', 'connect', 'disconnect']),
              ('Client', run_client, False, [False],
-              ['ordinary', 'connect', 'disconnect', 'connect_error']),
+              ['ordinary', 'star', 'connect', 'disconnect', 'connect_error']),
              ('AsyncClient', run_client, True, [False, True],
-              ['ordinary', 'connect', 'disconnect', 'connect_error'])]
+              ['ordinary', 'star', 'connect', 'disconnect',
+               'connect_error'])]
     reps = 1 if tier == 'quick' else 3
     for side, fn, is_async, coros, kinds in sides:
         for p in lattice():
             for kind in kinds:
+                # an event named "*" cannot have a handler registered by name
+                if kind == 'star' and (p['hNE'] or p['hSE']):
+                    continue
                 for coro in coros:
                     for _ in range(reps):
                         calls, normal, rec = fn(p, kind, is_async, coro, rng,
